@@ -7,6 +7,7 @@ import BandVerif.Lemmas.Frost
 import BandVerif.Model.Lagrange
 import BandVerif.Model.FrostSrc
 import BandVerif.Lemmas.GroupOrderPrime
+import BandVerif.Lemmas.LagrangeTotal
 
 namespace C03
 open BandVerif BandVerif.Frost Polynomial Finset
@@ -116,6 +117,55 @@ theorem aggregate_verifies (g : V) (f : F[X]) (s : Finset F) (hdeg : f.degree < 
     rw [← lagrange_interpolates f s hdeg, Finset.mul_sum]
     apply Finset.sum_congr rfl; intro i _; ring
   rw [Finset.sum_add_distrib, this, add_smul, mul_smul, Finset.sum_smul]; abel
+
+/-! ## the Lagrange coefficients the chain computes -/
+
+/-- PROPERTY (the chain's coefficient routine): whenever `ComputeLagrangeCoefficient` (input check + the precomputed-table
+    routine for ids ≤ 20 or the generic big-integer routine otherwise) returns a value without error, for member ids that
+    are positive and below the group order, the member list has no duplicates, contains the member, and the value IS the
+    Lagrange coefficient at 0 of that member within the member set, in the field of scalars `ZMod groupOrder`.
+    (The converse — it always returns for valid input — is `chain_coefficient_total_and_correct`.) -/
+theorem chain_coefficient_is_lagrange (mid : Nat) (l : List Nat) (hpos : ∀ j ∈ l, 1 ≤ j ∧ j < Lagrange.N) (r : Nat)
+    (h : Lagrange.coefficient mid l = (some r, Lagrange.LErr.ok)) :
+    l.Nodup ∧ mid ∈ l ∧
+    ((r : ℕ) : ZMod Lagrange.N) = lagrangeAtZero (l.toFinset.image (Nat.cast : ℕ → ZMod Lagrange.N)) (mid : ZMod Lagrange.N) :=
+  Lagrange.coefficient_is_lagrangeAtZero mid l hpos r h
+
+/-- PROPERTY (the chain's coefficient routine is total and correct): for EVERY list of distinct member ids that are positive
+    and below the group order and every member of it, `ComputeLagrangeCoefficient` returns without error — the int64
+    prime-factor-table routine never indexes outside its tables and never overflows, the generic routine inverts by Fermat —
+    and the value is the Lagrange coefficient at 0 of that member within the member set -/
+theorem chain_coefficient_total_and_correct (mid : Nat) (l : List Nat) (hnd : l.Nodup) (hmem : mid ∈ l)
+    (hpos : ∀ j ∈ l, 1 ≤ j ∧ j < Lagrange.N) :
+    ∃ r, Lagrange.coefficient mid l = (some r, Lagrange.LErr.ok) ∧
+      ((r : ℕ) : ZMod Lagrange.N) = lagrangeAtZero (l.toFinset.image (Nat.cast : ℕ → ZMod Lagrange.N)) (mid : ZMod Lagrange.N) :=
+  Lagrange.coefficient_total_and_correct mid l hnd hmem hpos
+
+/-- PROPERTY (the chain's coefficients reconstruct the group secret): if the chain's routine returned a coefficient λ_i for
+    every member i of a committee, then Σ λ_i · f(i) = f(0) for every polynomial f of degree below the committee size —
+    the interpolation fact behind `aggregate_verifies`, now for the coefficients the code actually computes -/
+theorem chain_coefficients_interpolate (l : List Nat) (hne : l ≠ []) (hpos : ∀ j ∈ l, 1 ≤ j ∧ j < Lagrange.N)
+    (f : (ZMod Lagrange.N)[X]) (hdeg : f.degree < l.length) (lam : Nat → Nat)
+    (h : ∀ i ∈ l, Lagrange.coefficient i l = (some (lam i), Lagrange.LErr.ok)) :
+    ∑ i ∈ l.toFinset, ((lam i : ℕ) : ZMod Lagrange.N) * f.eval (i : ZMod Lagrange.N) = f.eval 0 := by
+  obtain ⟨i0, hi0⟩ := List.exists_mem_of_ne_nil l hne
+  obtain ⟨hnd, _, _⟩ := chain_coefficient_is_lagrange i0 l hpos (lam i0) (h i0 hi0)
+  have hinj : Set.InjOn (Nat.cast : ℕ → ZMod Lagrange.N) (l.toFinset : Finset ℕ) := by
+    intro a ha b hb hab
+    exact Lagrange.cast_inj_lt a b (hpos a (List.mem_toFinset.mp ha)).2 (hpos b (List.mem_toFinset.mp hb)).2 hab
+  have hcard : (l.toFinset.image (Nat.cast : ℕ → ZMod Lagrange.N)).card = l.length := by
+    rw [Finset.card_image_of_injOn hinj, List.toFinset_card_of_nodup hnd]
+  have := lagrange_interpolates f (l.toFinset.image (Nat.cast : ℕ → ZMod Lagrange.N)) (by rw [hcard]; exact hdeg)
+  rw [Finset.sum_image hinj] at this
+  rw [← this]
+  apply Finset.sum_congr rfl
+  intro i hi
+  obtain ⟨_, _, e⟩ := chain_coefficient_is_lagrange i l hpos (lam i) (h i (List.mem_toFinset.mp hi))
+  rw [e]
+
+/-- the hypotheses are met: the routine returns for a table committee and for a committee with an id above 20 -/
+example : (Lagrange.coefficient 3 [1, 3, 7]).2 = Lagrange.LErr.ok ∧ (Lagrange.coefficient 3 [1, 3, 7]).1.isSome = true ∧
+          (Lagrange.coefficient 3 [1, 3, 25]).2 = Lagrange.LErr.ok ∧ (Lagrange.coefficient 3 [1, 3, 25]).1.isSome = true := by decide +kernel
 
 /-- a group signature accepted by `VerifyGroupSigningSignature` satisfies the Schnorr equation for the group key -/
 theorem group_verify_iff (g : V) (R : V) (z c : F) (Y : V) :
